@@ -390,6 +390,28 @@ func rulesC09(c *Ctx) {
 				okLoop = hasDone && hasCtx && fs.Post != nil
 			}
 		})
+		// one failed connection costs one attempt: the loop counter is written only by the loop's own post statement (and its
+		// initialisation before the loop)
+		inspectNoLit(cs.Body, func(n ast.Node) {
+			fs, ok := n.(*ast.ForStmt)
+			post, _ := func() (*ast.IncDecStmt, bool) {
+				if !ok || fs.Post == nil {
+					return nil, false
+				}
+				p, isInc := fs.Post.(*ast.IncDecStmt)
+				return p, isInc
+			}()
+			if post == nil {
+				return
+			}
+			ctr := cs.ObjOf(post.X)
+			extra := 0
+			for _, w := range cs.writesToVar(fs.Body, ctr, true) {
+				_ = w
+				extra++
+			}
+			c.Check(extra == 0 && ctr != nil, "connectSSE:one-attempt-per-failure", cs, fs, "the attempt counter is not modified inside the loop body (%d extra writes): with the default budget of 5 a client must survive 5 failed reconnects, not 3", extra)
+		})
 		c.Check(okLoop, "connectSSE:bounded-abortable", cs, nil, "reconnect attempts are bounded by maxRetries and each wait can be aborted by Close or by the caller's context")
 	})
 }
